@@ -97,7 +97,7 @@ Proof. exact nilctx_witness. Qed.
    aborted exchange) — for the first request of every call and for every HTTP
    continuation request, on every path: pipe unary / stream (lockstep loop to any
    depth), HTTP unary, stream init, producer continuation (batch limit, response
-   cap), exchange continuation, cancel; outcomes ok, handler error, panic, nil
+   cap), exchange continuation, cancel; any context-cancellation point; outcomes ok, handler error, panic, nil
    result, parameter TypeError, init failure, mid-stream error, contract violation
    (no emit / double emit / finish on exchange), cap refusal, sticky-session error.
    Premise [clean_call]: the call is outside the two recorded findings below. *)
@@ -108,6 +108,30 @@ Proof.
   intros k cl C. split.
   - exact (proj1 (first_fate_ok k cl C)).
   - intros j f I. destruct (conts_of_ok k cl C j f I) as (it & _ & _ & F). exact F.
+Qed.
+
+(* Context cancellation (the serve / request context, or the one OnDispatchStart
+   returned, cancelled by user code in the handler or inside the Produce / Exchange
+   call at any stream position) is a CLEAN end, never an error of its own: whenever
+   the cancelled run of a lockstep loop / produce loop hands an error to the end
+   hook, so does the uncancelled run (the error came from the turn script); and a
+   stream cancelled in its handler produces nothing and reports nothing, to the
+   client and to the hook alike.  [end_err_iff_response_error] above already
+   quantifies over every cancellation point (field c_cancel of the call). *)
+Theorem context_cancellation_is_not_an_error :
+  (forall prod ts c ins pos,
+     snd (pipe_loop prod ts c pos ins) = true -> snd (pipe_loop prod ts CNone pos ins) = true)
+  /\ (forall c rest pos count big,
+       prod_err (http_prod c rest pos count big) = true -> prod_err (http_prod CNone rest pos count big) = true)
+  /\ (forall k cl, c_cancel cl = CHandler -> is_stream (c_kind cl) = true ->
+       first_dispatched cl = true -> c_badparams cl = false -> c_sticky cl = false ->
+       (c_init cl = OOk \/ c_init cl = OBig) -> c_http cl = false \/ c_kind cl = KProd ->
+       f_err (first_fate k cl) = false /\ resp_err (f_resp (first_fate k cl)) = false /\ f_tok (first_fate k cl) = false).
+Proof.
+  split; [|split].
+  - intros prod ts c ins pos. apply cancel_no_new_error_pipe.
+  - intros c rest. apply cancel_no_new_error_http.
+  - exact cancel_in_handler_clean.
 Qed.
 
 (* the hook is started for exactly the dispatched requests: a registered method,
